@@ -205,6 +205,8 @@ pub struct Sim {
 	pub node_down: bool,
 	/// heights at which each wallet/account last refreshed successfully
 	pub last_refresh: BTreeMap<(usize, usize), u64>,
+	/// slate excluded from generic op selection (a property's target under study)
+	pub frozen: Option<usize>,
 }
 
 /// JSON V4 wire round trip, as every real transport performs.
@@ -231,6 +233,7 @@ impl Sim {
 			addressed: BTreeMap::new(),
 			node_down: false,
 			last_refresh: BTreeMap::new(),
+			frozen: None,
 		}
 	}
 
@@ -344,7 +347,7 @@ impl Sim {
 					}
 				}
 			}
-			if !want {
+			if !want || (srec.is_some() && srec == self.frozen) {
 				keep.push(tx);
 				continue;
 			}
@@ -694,7 +697,9 @@ impl Sim {
 	// --- generic op interpreter ------------------------------------------------------------
 
 	fn pick_slate(&self, s: u16, pred: impl Fn(&SlateRec) -> bool) -> Option<usize> {
-		let c: Vec<usize> = (0..self.slates.len()).filter(|i| pred(&self.slates[*i])).collect();
+		let c: Vec<usize> = (0..self.slates.len())
+			.filter(|i| Some(*i) != self.frozen && pred(&self.slates[*i]))
+			.collect();
 		if c.is_empty() {
 			None
 		} else {
@@ -800,7 +805,7 @@ impl Sim {
 				}) {
 					None => OpOutcome::noop("lock"),
 					Some(si) => {
-						let rep = self.slates[si].locked;
+						let rep = self.slates[si].locked && !self.slates[si].cancelled_by.contains(&self.slates[si].initiator);
 						let r = self.lock(si);
 						OpOutcome {
 							effective: true,
@@ -818,7 +823,10 @@ impl Sim {
 				}) {
 					None => OpOutcome::noop("deliver"),
 					Some(si) => {
-						let rep = self.slates[si].stage >= Stage::Replied;
+						// a repeat = same slate delivered again to the same account of a recipient that has not cancelled it
+						let rep = self.slates[si].stage >= Stage::Replied
+							&& !self.slates[si].cancelled_by.contains(&self.slates[si].responder)
+							&& self.slates[si].responder_acct == Some(self.active[self.slates[si].responder]);
 						let r = self.deliver(si);
 						OpOutcome {
 							effective: true,
